@@ -379,6 +379,9 @@ class Engine(object):
             if attr == 'values':
                 return SV('values', base.t)
         if base.ty == 'str' and attr == 'format':
+            if ex.k.hints.get('format_is_H'):
+                # an opaque string value usable as a label (hashable): no property of it is assumed
+                return SV('H', hp.fresh('fmt', H))
             return SV('str')
         if base.ty in ('graph', 'kripke'):
             cls = 'Kripke' if base.ty == 'kripke' else 'DiGraph'
